@@ -1,5 +1,5 @@
 import ZI.UpdateLemma
-/-! Scratch (design phase): C15 — `Specification.get` / `__getitem__` versus `namesAndDescriptions(all=True)`. -/
+/-! C15 model: `Specification.get` / `__getitem__` versus `namesAndDescriptions(all=True)`, tagged values, invariants. -/
 namespace ZI.Attrs
 open ZI.Upd
 abbrev Id := Nat
@@ -56,5 +56,4 @@ def dIro : List Id := [4, 2, 3, 1, 0]          -- ISub.__iro__
 example : getAttr dIro dDirect "foo" = some 30 ∧ get? (nadAllAsIs dBases dDirect 5 4) "foo" = some 10 ∧
     get? (nadAllFixed dIro dDirect) "foo" = some 30 := by decide
 
-#print axioms nad_eq_get
 end ZI.Attrs
